@@ -3,13 +3,15 @@
 EXTENDS Limits, Json, Sequences
 
 StateRec == [lim |-> lim, st |-> st, out |-> out, sem |-> sem, sub |-> sub, loopOn |-> loopOn, gone |-> gone,
-             tgLive |-> tgLive, stop |-> stop, peersClosed |-> peersClosed, runLive |-> runLive,
-             conn |-> conn, th |-> th]
+             tgLive |-> tgLive, stop |-> stop, lclosed |-> lclosed, peersClosed |-> peersClosed, dead |-> dead,
+             runLive |-> runLive, conn |-> conn, th |-> th]
 
 \* Leg R: the harness decides the environment steps and lets the real code run until it is settled, so
 \* environment steps are exported only from states in which no internal step is enabled ("eager" graph).
-EnvOps == {"Arrive", "Disconnect", "StopBegin", "ThAdd", "ThRefuse", "ThCheck", "AllowCheck", "Handshake"}
-IsEnvStep == act'.op \in EnvOps \/ (act'.op \in {"Abort", "RemovePeer"} /\ stop = "no")
+EnvOps == {"Arrive", "Disconnect", "CloseListener", "StopBegin", "ThAdd", "ThRefuse", "ThCheck", "AllowCheck", "Handshake"}
+IsEnvStep == \/ act'.op \in EnvOps
+             \/ (act'.op = "Abort" /\ stop = "no")
+             \/ (act'.op = "RemovePeer" /\ ~dead[act'.p])
 \* in the RPC/TG families a handler's return is the harness's decision too (it holds the gate)
 GateOps == {"Handle", "ThDone"}
 \* CONN family: the harness also holds PeerStore.AddPeer, i.e. decides when addPeer proceeds
@@ -25,7 +27,8 @@ InternalEnabledExcept(ops) ==
     \/ ("AddPeer" \notin ops /\ \E c \in Conns : G_AddPeer(c))
     \/ ("Handle" \notin ops /\ \E p \in Peers, r \in RpcIds : G_Handle(p, r))
     \/ ("ThDone" \notin ops /\ \E t \in Threads : G_ThDone(t))
-    \/ (stop # "no" /\ \E c \in Conns : G_Abort(c) \/ G_RemovePeer(c))
+    \/ (stop # "no" /\ \E c \in Conns : G_Abort(c))
+    \/ (\E c \in Conns : dead[c] /\ G_RemovePeer(c))
 
 Harness == GateOps \cup ConnGateOps
 Eager == (IsEnvStep \/ act'.op \in Harness) => ~InternalEnabledExcept(Harness)
@@ -33,8 +36,8 @@ Eager == (IsEnvStep \/ act'.op \in Harness) => ~InternalEnabledExcept(Harness)
 Emit ==
     PrintT("EDGE " \o ToJson([init |-> (act.op = "Init"), from |-> StateRec, act |-> act',
         to |-> [lim |-> lim', st |-> st', out |-> out', sem |-> sem', sub |-> sub', loopOn |-> loopOn', gone |-> gone',
-                tgLive |-> tgLive', stop |-> stop', peersClosed |-> peersClosed', runLive |-> runLive',
-                conn |-> conn', th |-> th']]))
+                tgLive |-> tgLive', stop |-> stop', lclosed |-> lclosed', peersClosed |-> peersClosed', dead |-> dead',
+                runLive |-> runLive', conn |-> conn', th |-> th']]))
 
 EagerEmit == Eager /\ Emit
 =============================================================================
